@@ -30,4 +30,24 @@ attribute values without `&`). -/
 def realParams (exotic : Bytes → Option Bytes) : Req.Prescan.Params :=
   ⟨Req.Labels.lookup exotic, id⟩
 
+/-! ### the charset of the Content-Type header: `htmlcharset.Lookup`, then `ianaindex.MIME` -/
+
+/-- What `ianaindex.MIME.Encoding(charset)` can answer. -/
+inductive Iana (σ : Type) where
+  | ok (d : Decoder σ)   -- an implemented encoding
+  | unimplemented        -- registered name without an implementation: `(nil, nil)`
+  | unknown              -- an error
+
+/-- `enc, _ := htmlcharset.Lookup(charset); if enc == nil { enc, err = ianaindex.MIME.Encoding(charset);
+if err != nil || enc == nil { return } }` -/
+def headerLookup (whatwg : Bytes → Option Bytes) (decOf : Bytes → Decoder σ) (iana : Bytes → Iana σ)
+    (charset : Bytes) : Option (Decoder σ) :=
+  match whatwg charset with
+  | some n => some (decOf n)
+  | none =>
+    match iana charset with
+    | .ok d => some d
+    | .unimplemented => none
+    | .unknown => none
+
 end Req.Decode
